@@ -171,3 +171,28 @@ def covers(onsets, e, i):
     """time point i lies strictly inside the process e: started at an earlier time point (not merely an earlier row of the same
     time point) and not ended"""
     return e.start_index < i and i < e.end_index and onsets[i] - e.start_time > 1e-9
+
+
+# ----------------------------------------------------------------------------- delimiter scan (C01, C04)
+def last_nb(s: "Str", n: "Int") -> "Int":
+    """code point of the last non-whitespace character of s[:n], -1 if there is none (blanks never matter)"""
+    return -1 if n <= 0 else (last_nb(s, n - 1) if s[n - 1].isspace() else ord(s[n - 1]))
+
+
+def delim_fault_at(s, i):
+    """the non-blank character s[i] is a delimiter fault given the last non-blank character before it:
+    an empty tag (comma at the start / after ',' / after '(' ; ')' after ','), or a missing comma ('x(' or ')x')"""
+    return (not s[i].isspace()) and (
+        (s[i] == ',' and (last_nb(s, i) == -1 or last_nb(s, i) == 44 or last_nb(s, i) == 40))
+        or (s[i] == '(' and not (last_nb(s, i) == -1 or last_nb(s, i) == 44 or last_nb(s, i) == 40))
+        or (s[i] == ')' and last_nb(s, i) == 44)
+        or (last_nb(s, i) == 41 and s[i] != ',' and s[i] != ')'))
+
+
+def delims_ok_before(s: "Str", n: "Int") -> "Bool":
+    return True if n <= 0 else (delims_ok_before(s, n - 1) and not delim_fault_at(s, n - 1))
+
+
+def delims_wellformed(s):
+    """no empty tag, no missing comma, no trailing comma - judged on the non-blank characters only"""
+    return delims_ok_before(s, len(s)) and last_nb(s, len(s)) != 44
